@@ -495,3 +495,82 @@ def resend(fx):
 def _is_err_atom(fx, a):
     v = sym.atom_variant(fx, a)
     return bool(v) and v[1] and v[1][0] == "Err" and v[2]
+
+
+@PROP.rule("R-C06-8", floor=3, doc="uring send buffers: every reply is sent with its own length and to its own address (message header re-pointed and "
+                                   "length reset on every use), and a buffer returns to the pool after every completion, failed or not")
+def uring_send_buffers(fx):
+    b = fx.fn("aquatic_udp::workers::socket::uring::send_buffers::SendBuffer::prepare_entry")
+    n = 0
+    bad = set()
+    fds = {}
+    for p in cpaths(fx, b):
+        if p.end != "return" or p.ret is None:
+            continue
+        r = strip_after(p.ret)
+        if not (r[0] == "agg" and r[2] == "Ok"):
+            continue
+        n += 1
+        v4 = [x[1] for x in (sym.atom_bool(a) for a in p.atoms) if x and fp(x[0]) == "send_to_ipv4_socket"]
+        if len(v4) != 1:
+            bad.add("the socket family is not decided by send_to_ipv4_socket alone")
+            continue
+        fam = "v4" if v4[0] else "v6"
+        w = {}
+        order = []
+        for i, e in enumerate(p.effects):
+            if e[0] == "write" and e[5]:
+                k = ".".join(str(x[1]) for x in e[5] if x[0] == "f")
+                w[k] = (i, show(strip_after(e[2])))
+            if e[0] == "call" and re.search(r"Response::write_bytes$", e[1]):
+                order.append(i)
+        name = w.get("msghdr.msg_name", (None, ""))[1]
+        if name != "self.name_%s" % fam:
+            bad.add("%s: msg_name <- %s (the header keeps pointing at whatever address the buffer was last used with)" % (fam, name or "not written"))
+        sizes = [e[6] for e in p.effects if e[0] == "call" and e[1].endswith("mem::size_of") and len(e) > 6]
+        want_ty = ("libc::sockaddr_in",) if fam == "v4" else ("libc::sockaddr_in6",)
+        if "msghdr.msg_namelen" not in w or want_ty not in [tuple(s) for s in sizes] or not re.match(r"^\(size_of\(\) as u32\)$", w["msghdr.msg_namelen"][1]):
+            bad.add("%s: msg_namelen <- %s with size_of%s" % (fam, w.get("msghdr.msg_namelen", (None, "not written"))[1], sizes))
+        il = w.get("iovec.iov_len")
+        if il is None or not order or il[0] < order[0] or not re.match(r"^\(Cursor::position\(Cursor::new\(.*self\.bytes.*\)'*\) as usize\)$", il[1]):
+            bad.add("%s: iov_len <- %s (must be the cursor position after Response::write_bytes; otherwise the previous / full buffer length is sent)" % (fam, il[1][:60] if il else "not written"))
+        m = re.search(r"SendMsg::new\((\d+):io_uring::types::Fixed, self\.msghdr\)", show(r))
+        fds[fam] = m.group(1) if m else None
+    yield ob("R-C06-8", "send#uring#msghdr_per_reply", n >= 2 and not bad and fds.get("v4") == "0" and fds.get("v6") == "1", b, None,
+             "%d Ok paths: msg_name / msg_namelen re-pointed to this reply's sockaddr, iov_len = bytes written for this reply, fixed file %s; deviations: %s"
+             % (n, fds, sorted(bad)[:3]), {"paths": n, "fds": fds})
+    # completion: the buffer goes back to the pool on every path of the send-completion arm
+    h = fx.fn("aquatic_udp::workers::socket::uring::SocketWorker::handle_cqe")
+    n = 0
+    bad = set()
+    for p in cpaths(fx, h):
+        if p.end != "return":
+            continue
+        if p.calls(r"SocketWorker::handle_recv_cqe$") or p.calls(r"ConnectionValidator::update_elapsed$"):
+            continue
+        n += 1
+        fr = p.calls(r"SendBuffers::mark_buffer_as_free$")
+        if len(fr) != 1 or show(strip_after(fr[0][2][1])) != "(Entry::user_data(cqe) as usize)":
+            bad.add("%d release(s) %s" % (len(fr), [show(strip_after(x[2][1]))[:40] for x in fr]))
+    yield ob("R-C06-8", "send#uring#buffer_released_on_every_completion", n >= 2 and not bad, h, None,
+             "%d send-completion paths (successful and failed sends): each releases exactly the buffer named by the completion's user_data; deviations: %s" % (n, sorted(bad)), {"paths": n})
+    # hand-out: the buffer is marked busy and the entry is tagged with the same index
+    s = fx.fn("aquatic_udp::workers::socket::uring::send_buffers::SendBuffers::prepare_entry")
+    n = 0
+    bad = set()
+    for p in cpaths(fx, s):
+        if p.end != "return" or p.ret is None:
+            continue
+        r = strip_after(p.ret)
+        if not (r[0] == "agg" and r[2] == "Ok"):
+            continue
+        n += 1
+        idx = "(SendBuffers::next_free_index(self) as Some).0"
+        busy = [show(strip_after(e[2])) for e in p.effects if e[0] == "write" and e[5] and e[5][-1] == ("f", "free") and idx in show(e[1])]
+        tag = [show(strip_after(e[2][1])) for e in p.calls(r"Entry::user_data$")]
+        if busy != ["0:bool"]:
+            bad.add("free flag of the chosen buffer <- %s" % busy)
+        if tag != ["(%s as u64)" % idx]:
+            bad.add("entry tagged with %s" % tag)
+    yield ob("R-C06-8", "send#uring#buffer_busy_and_tagged", n >= 1 and not bad, s, None,
+             "%d Ok path(s): chosen buffer marked busy, submission tagged with its index; deviations: %s" % (n, sorted(bad)), {"paths": n})
